@@ -152,12 +152,13 @@ ExistsOk(r) == r.op = "new" => /\ (Receivers(r.m) # << >> => r.exists)
                                /\ (~PassGlobal(r.m) => ~r.exists)
 
 (* whole-stack summary (C08): what the composed collector publishes vs. what any layer would receive *)
-AnyRecvUnder(m, c) == \E i \in DOMAIN flat.layers :
-                         /\ \A g \in DOMAIN flat.globals : Enabled(flat.globals[g], m, c)
-                         /\ \A j \in DOMAIN flat.layers[i].filters : Enabled(flat.layers[i].filters[j], m, c)
-SummaryOk(sum) ==
-  /\ \A i \in DOMAIN sum.cs : sum.cs[i].cs = "never" => \A c \in SUBSET Flags : ~AnyRecvUnder(sum.cs[i].m, c)
-  /\ sum.hint # NoHint => \A i \in DOMAIN sum.cs : \A c \in SUBSET Flags : AnyRecvUnder(sum.cs[i].m, c) => sum.cs[i].m.lvl <= sum.hint
+AnyRecvUnderIn(f, m, c) == \E i \in DOMAIN f.layers :
+                         /\ \A g \in DOMAIN f.globals : Enabled(f.globals[g], m, c)
+                         /\ \A j \in DOMAIN f.layers[i].filters : Enabled(f.layers[i].filters[j], m, c)
+SummaryOkIn(f, sum) ==
+  /\ \A i \in DOMAIN sum.cs : sum.cs[i].cs = "never" => \A c \in SUBSET Flags : ~AnyRecvUnderIn(f, sum.cs[i].m, c)
+  /\ sum.hint # NoHint => \A i \in DOMAIN sum.cs : \A c \in SUBSET Flags : AnyRecvUnderIn(f, sum.cs[i].m, c) => sum.cs[i].m.lvl <= sum.hint
+SummaryOk(sum) == SummaryOkIn(flat, sum)
 
 (* registration passes (C09, unfiltered stacks): per callsite and pass every layer is asked exactly once.       *)
 (* (The order among layers is not judged: the stack asks outer layers first, Vec asks in element order.)       *)
